@@ -159,7 +159,7 @@ def main():
         }],
         "checks": checks,
         "not_applicable": na,
-        "notes": "All checks: exit 0 held / 1 VIOLATION (not in known_findings.json) / 2 harness error. Two open findings are listed in known_findings.json and printed as KNOWN-FINDING lines (exit code unaffected): F1 under C20 (a configuration key NAMED 'frame' is hard-coded in FindInPaths), F2 under C16 and, in the thorough tier, C20 (GetFromAll repeats records for overlapping ',' alternatives); their replay files are findings/F1.replay.json and findings/F2.replay.json. 13 repaired defects are recorded there as 'fixed:' entries. VERIF_SEED, VERIF_TIER, VERIF_BUDGET_S, VERIF_WORKERS honoured. ./check selftest determinism|mutants|model|smoke are the framework's own self tests; seeded/ holds 186 independently written breaking changes with the checks that catch them (DESIGN 12.8).",
+        "notes": "All checks: exit 0 held / 1 VIOLATION (not in known_findings.json) / 2 harness error. Two open findings are listed in known_findings.json and printed as KNOWN-FINDING lines (exit code unaffected): F1 under C20 (a configuration key NAMED 'frame' is hard-coded in FindInPaths), F2 under C16 and, in the thorough tier, C20 (GetFromAll repeats records for overlapping ',' alternatives); their replay files are findings/F1.replay.json and findings/F2.replay.json. 13 repaired defects are recorded there as 'fixed:' entries. VERIF_SEED, VERIF_TIER, VERIF_BUDGET_S, VERIF_WORKERS honoured. ./check selftest determinism|mutants|model|smoke are the framework's own self tests; seeded/ holds 192 independently written breaking changes with the checks that catch them (DESIGN 12.8).",
     }
     with open(os.path.join(VERIF, "MANIFEST.json"), "w") as f:
         json.dump(doc, f, indent=1)
